@@ -414,5 +414,241 @@ theorem feed_prefix (more : List Ev) : ∀ st : List Nat × List Nat, ∃ y, (mo
     | shutdown _ => exact ⟨y, by rw [hy]; simp [feed]⟩
     | complete _ => exact ⟨y, by rw [hy]; simp [feed]⟩
     | sendRequest => exact ⟨y, by rw [hy]; simp [feed]⟩
+    | resolve _ => exact ⟨y, by rw [hy]; simp [feed]⟩
+
+/-! ### `accept` answers `None` only when drained -/
+
+theorem surfacedIn_append (a b : List Obs) : surfacedIn (a ++ b) = surfacedIn a ++ surfacedIn b := by
+  induction a with
+  | nil => rfl
+  | cons o r ih => cases o <;> simp [surfacedIn, ih]
+
+theorem shutdown_quiet (s : State) (n : Nat) :
+    (shutdown s n).1.ongoing = s.ongoing ∧ surfacedIn (shutdown s n).2 = [] ∧ Obs.acceptNone ∉ (shutdown s n).2 := by
+  simp only [shutdown]
+  split <;> simp [surfacedIn]
+
+theorem acceptNone_shape (s : State) :
+    (acceptNone s).1.ongoing = s.ongoing ∧ surfacedIn (acceptNone s).2 = [] ∧ Obs.acceptNone ∈ (acceptNone s).2 := by
+  obtain ⟨h1, h2, _⟩ := shutdown_quiet s 0
+  refine ⟨h1, ?_, ?_⟩
+  · simp [acceptNone, surfacedIn_append, h2, surfacedIn]
+  · simp [acceptNone]
+
+/-- which requests one run of the accept loop adds to `ongoing_streams`: the one it surfaces. -/
+theorem acceptLoop_ongoing (q : List Nat) : ∀ s : State,
+    (acceptLoop s q).1.ongoing = surfacedIn (acceptLoop s q).2 ++ s.ongoing := by
+  induction q with
+  | nil =>
+    intro s
+    unfold acceptLoop
+    by_cases hd : drained { s with incoming := [] } = true
+    · simp only [hd, if_true]
+      obtain ⟨h1, h2, _⟩ := acceptNone_shape { s with incoming := [] }
+      rw [h1, h2]; rfl
+    · simp only [hd]
+      simp [surfacedIn]
+  | cons id rest ih =>
+    intro s
+    unfold acceptLoop
+    by_cases hr : rejects s.sentClosing id = true
+    · simp only [hr, if_true]
+      by_cases he : s.ongoing.isEmpty = true
+      · simp only [he, if_true]
+        obtain ⟨h1, h2, _⟩ := acceptNone_shape { s with incoming := rest }
+        simp only [surfacedIn]
+        rw [h1, h2]; rfl
+      · simp only [he]
+        simp only [Bool.false_eq_true, if_false, surfacedIn]
+        exact ih s
+    · simp only [hr]
+      simp [surface, surfacedIn]
+
+/-- exactly when one run of the accept loop answers `None`: no request is ongoing, and either the
+    next stream in the transport's queue is one the filter rejects (local shutdown) or the queue is
+    empty and a GOAWAY of the peer has been processed. -/
+theorem acceptLoop_none_iff (q : List Nat) : ∀ s : State,
+    Obs.acceptNone ∈ (acceptLoop s q).2 ↔
+      s.ongoing = [] ∧ ((∃ id rest, q = id :: rest ∧ rejects s.sentClosing id = true) ∨
+                        (q = [] ∧ s.recvClosing.isSome = true)) := by
+  induction q with
+  | nil =>
+    intro s
+    unfold acceptLoop
+    by_cases hd : drained { s with incoming := [] } = true
+    · simp only [hd, if_true]
+      obtain ⟨_, _, h3⟩ := acceptNone_shape { s with incoming := [] }
+      simp only [drained, Bool.and_eq_true, List.isEmpty_iff] at hd
+      exact ⟨fun _ => ⟨hd.2, Or.inr ⟨trivial, hd.1⟩⟩, fun _ => h3⟩
+    · simp only [hd]
+      simp only [drained, Bool.and_eq_true, List.isEmpty_iff, not_and] at hd
+      simp only [Bool.false_eq_true, if_false, List.mem_singleton, reduceCtorEq, false_iff, not_and]
+      intro h1 h2
+      rcases h2 with ⟨_, _, h, _⟩ | ⟨_, h⟩
+      · cases h
+      · exact hd h h1
+  | cons id rest ih =>
+    intro s
+    unfold acceptLoop
+    by_cases hr : rejects s.sentClosing id = true
+    · simp only [hr, if_true]
+      by_cases he : s.ongoing.isEmpty = true
+      · simp only [he, if_true]
+        obtain ⟨_, _, h3⟩ := acceptNone_shape { s with incoming := rest }
+        have he' : s.ongoing = [] := by simpa using he
+        simp only [List.mem_cons, reduceCtorEq, false_or, h3, true_iff]
+        exact ⟨he', Or.inl ⟨id, rest, rfl, hr⟩⟩
+      · simp only [he]
+        simp only [Bool.false_eq_true, if_false, List.mem_cons, reduceCtorEq, false_or]
+        have he' : s.ongoing ≠ [] := by simpa using he
+        rw [ih s]
+        constructor
+        · rintro ⟨h, _⟩; exact absurd h he'
+        · rintro ⟨h, _⟩; exact absurd h he'
+    · simp only [hr]
+      simp only [Bool.false_eq_true, if_false, List.mem_singleton, reduceCtorEq, false_iff, not_and]
+      intro _ h2
+      rcases h2 with ⟨id', rest', h, h'⟩ | ⟨h, _⟩
+      · simp only [List.cons.injEq] at h
+        rw [← h.1] at h'
+        exact hr h'
+      · cases h
+
+/-- a run of the accept loop that answers `None` has surfaced nothing. -/
+theorem acceptLoop_none_quiet (q : List Nat) : ∀ s : State,
+    Obs.acceptNone ∈ (acceptLoop s q).2 → surfacedIn (acceptLoop s q).2 = [] := by
+  induction q with
+  | nil =>
+    intro s hn
+    unfold acceptLoop at hn ⊢
+    by_cases hd : drained { s with incoming := [] } = true
+    · simp only [hd, if_true]; exact (acceptNone_shape _).2.1
+    · simp only [hd]; simp [surfacedIn]
+  | cons id rest ih =>
+    intro s hn
+    unfold acceptLoop at hn ⊢
+    by_cases hr : rejects s.sentClosing id = true
+    · simp only [hr, if_true] at hn ⊢
+      by_cases he : s.ongoing.isEmpty = true
+      · simp only [he, if_true, surfacedIn]; exact (acceptNone_shape _).2.1
+      · simp only [he] at hn ⊢
+        simp only [Bool.false_eq_true, if_false, List.mem_cons, reduceCtorEq, false_or] at hn
+        simp only [Bool.false_eq_true, if_false, surfacedIn]
+        exact ih s hn
+    · simp only [hr] at hn
+      simp at hn
+
+theorem procCtlClient_ongoing (l : List Nat) : ∀ s : State, (procCtlClient s l).ongoing = s.ongoing := by
+  induction l with
+  | nil => intro s; simp [procCtlClient]
+  | cons id rest ih =>
+    intro s
+    unfold procCtlClient
+    have hp : (processGoaway s id).ongoing = s.ongoing := by
+      unfold processGoaway; split <;> rfl
+    by_cases hr : isRequest id = true
+    · simp only [hr, if_true]
+      by_cases hf : (processGoaway s id).failed = true
+      · simp only [hf, if_true]; exact hp
+      · simp only [hf]
+        simp only [Bool.false_eq_true, if_false]
+        exact (ih _).trans hp
+    · simp [hr]
+
+/-- one step of a history: `ongoing_streams` moves as the history-level `inProgress` does, and the
+    step shows `None` only as the answer of `accept` on a state without ongoing requests. -/
+theorem step_progress (s : State) (e : Ev) :
+    (step s e).1.ongoing = progressStep s.ongoing (e, (step s e).2) ∧
+    (Obs.acceptNone ∈ (step s e).2 → e = .accept ∧ s.ongoing = [] ∧ (step s e).1.ongoing = []) := by
+  cases e with
+  | arrive id => simp [step, progressStep, surfacedIn]
+  | accept =>
+    simp only [step, accept]
+    by_cases hf : s.failed = true
+    · simp [hf, progressStep, surfacedIn]
+    · simp only [hf]
+      simp only [Bool.false_eq_true, if_false]
+      have hs1 : (procCtlServer s s.ctl).ongoing = s.ongoing := (procCtlServer_fields s.ctl s).2.2.2
+      by_cases hf1 : (procCtlServer s s.ctl).failed = true
+      · simp [hf1, progressStep, surfacedIn, hs1]
+      · simp only [hf1]
+        simp only [Bool.false_eq_true, if_false]
+        have h1 := acceptLoop_ongoing (procCtlServer s s.ctl).incoming (procCtlServer s s.ctl)
+        refine ⟨by rw [h1, hs1]; rfl, ?_⟩
+        intro hn
+        have h2 := ((acceptLoop_none_iff _ _).mp hn).1
+        refine ⟨trivial, hs1 ▸ h2, ?_⟩
+        rw [h1, h2, List.append_nil]
+        exact acceptLoop_none_quiet _ _ hn
+  | shutdown n =>
+    simp only [step]
+    by_cases hf : s.failed = true
+    · simp [hf, progressStep, surfacedIn]
+    · simp only [hf]
+      simp only [Bool.false_eq_true, if_false]
+      obtain ⟨h1, h2, h3⟩ := shutdown_quiet s n
+      refine ⟨by simp [progressStep, surfacedIn_append, h1, h2, surfacedIn], ?_⟩
+      intro hn
+      simp only [List.mem_append, List.mem_singleton, reduceCtorEq, or_false] at hn
+      exact absurd hn h3
+  | complete id => simp [step, progressStep, surfacedIn]
+  | recvGoaway id => simp [step, progressStep, surfacedIn]
+  | pollClose =>
+    simp only [step, pollClose]
+    by_cases hf : s.failed = true
+    · simp [hf, progressStep, surfacedIn]
+    · simp only [hf]
+      simp only [Bool.false_eq_true, if_false]
+      by_cases hf1 : (procCtlClient s s.ctl).failed = true
+      · simp [hf1, progressStep, surfacedIn, procCtlClient_ongoing]
+      · simp [hf1, progressStep, surfacedIn, procCtlClient_ongoing]
+  | sendRequest =>
+    simp only [step, sendRequest]
+    by_cases hc : s.closing = true
+    · simp [hc, progressStep, surfacedIn]
+    · simp [hc, progressStep, surfacedIn]
+  | resolve id =>
+    simp only [step]
+    split <;> simp [progressStep, surfacedIn]
+
+theorem inProgress_snoc (pre : List (Ev × List Obs)) (st : Ev × List Obs) :
+    inProgress (pre ++ [st]) = progressStep (inProgress pre) st := by
+  simp [inProgress, List.foldl_append]
+
+/-- a whole history: `ongoing_streams` is the history's `inProgress`, and every step that shows
+    `None` is an `accept` on a history without a request in progress. -/
+theorem trace_progress (evs : List Ev) : ∀ (s : State) (pre : List (Ev × List Obs)),
+    inProgress pre = s.ongoing →
+    inProgress (pre ++ trace s evs) = (run s evs).1.ongoing ∧
+    (∀ a st b, trace s evs = a ++ st :: b → Obs.acceptNone ∈ st.2 →
+      st.1 = .accept ∧ inProgress (pre ++ a) = [] ∧ inProgress (pre ++ a ++ [st]) = []) := by
+  induction evs with
+  | nil =>
+    intro s pre h
+    refine ⟨by simpa [trace, run] using h, ?_⟩
+    intro a st b hab
+    simp [trace] at hab
+  | cons e es ih =>
+    intro s pre h
+    obtain ⟨p1, p2⟩ := step_progress s e
+    have h' : inProgress (pre ++ [(e, (step s e).2)]) = (step s e).1.ongoing := by
+      rw [inProgress_snoc, h, p1]
+    obtain ⟨q1, q2⟩ := ih (step s e).1 (pre ++ [(e, (step s e).2)]) h'
+    refine ⟨by simpa [trace, run, List.append_assoc] using q1, ?_⟩
+    intro a st b hab hn
+    cases a with
+    | nil =>
+      simp only [trace, List.nil_append, List.cons.injEq] at hab
+      obtain ⟨hst, _⟩ := hab
+      subst hst
+      obtain ⟨r1, r2, r3⟩ := p2 hn
+      refine ⟨r1, by simpa [h] using r2, ?_⟩
+      rw [List.append_nil, h', r3]
+    | cons a0 a' =>
+      simp only [trace, List.cons_append, List.cons.injEq] at hab
+      obtain ⟨ha0, hrest⟩ := hab
+      subst ha0
+      have := q2 a' st b hrest hn
+      simpa [List.append_assoc] using this
 
 end H3.Lemmas.Goaway
